@@ -124,8 +124,9 @@ def harness_cmd(b):
         cxx = cxx or 'clang++'
         san = san if san is not None else SAN_ASAN
         inc += ' -I' + os.path.join(root, 'gen')
-    srcs = [os.path.join(VERIF, b['src'])] + [os.path.join(REPO, s) for s in b.get('extra_src', [])]
-    if b.get('extra_src'):
+    # a repository source that a change has removed (e.g. a class made header-only) is simply not compiled in
+    srcs = [os.path.join(VERIF, b['src'])] + [os.path.join(REPO, s) for s in b.get('extra_src', []) if os.path.exists(os.path.join(REPO, s))]
+    if len(srcs) > 1:
         # ONE translation unit (a generated file that #includes the harness and the repository sources): with several
         # sources on one command line the compiler's -MF depfile only describes the last one, and a change to a header
         # included by the harness alone would not trigger a rebuild
